@@ -165,6 +165,7 @@ def c11_jobs(tier, seed):
         Job('h_listtbl', 'asan', extra_srcs=REFS_HASH, args=['--cases', '6400' if t else '320']),
         Job('h_list', 'asan', args=['--cases', '2500' if t else '192']),
         Job('h_vector', 'asan', args=['--cases', '2000' if t else '128']),
+        Job('h_scale', 'asan', extra_srcs=REFS_HASH, args=['--n11', '120011' if t else '20011']),
     ]
 
 
@@ -327,7 +328,7 @@ CHECKS['C13'] = dict(
 
 CHECKS['C16'] = dict(
     title='encoders/decoders exact inverses, standard formats', level='exploration',
-    jobs=lambda tier, seed: [Job('h_codec', 'plain', args=(['--exhaustive-len', '3', '--random', '60000', '--queries', '200000'] if tier == 'thorough'
+    jobs=lambda tier, seed: [Job('h_codec', 'plain', args=(['--exhaustive-len', '3', '--random', '60000', '--queries', '200000', '--huge', '1'] if tier == 'thorough'
                                                          else ['--exhaustive-len', '2', '--random', '20000', '--queries', '20000']))],
     rule='evaluation = one byte string taken through URL, Base64 and hex: encode, format predicate (URL: only printable ASCII outside % + & = ? # " < > literally, every literal equal to the input byte, every other byte as %hh of that byte; '
          'Base64 equal to an independent RFC 4648 encoder; hex two lowercase digits per byte), decode(encode(x)) == x with exact length, decoder leniency (upper-case hex, + for space); or one query list of 0-12 pairs over bytes 1-255 '
